@@ -1275,3 +1275,147 @@ Proof. split; vm_compute; reflexivity. Qed.
 Example lay_3_5 : verifications (lay_world false 3 5) = 364 /\ geo 3 5 = 364 /\
                   delegations (lay_world false 3 5) = 16.
 Proof. repeat split; vm_compute; reflexivity. Qed.
+
+(* ------------------------------------------------------------------ *)
+(* a decidable certificate for the forest hypotheses on a finite store, and non-vacuity        *)
+
+Fixpoint nodupb (l : list N) : bool :=
+  match l with [] => true | x :: r => negb (existsb (N.eqb x) r) && nodupb r end.
+
+Lemma nodupb_NoDup l : nodupb l = true -> NoDup l.
+Proof.
+  induction l as [|x l IH]; cbn [nodupb]; intros H; [constructor|].
+  apply andb_true_iff in H. destruct H as [H1 H2]. constructor; [|apply IH; exact H2].
+  intros Hin. apply (existsb_eqb_in x l) in Hin. rewrite Hin in H1. discriminate.
+Qed.
+
+Lemma alookup_In {V} k (v : V) m : alookup k m = Some v -> In (k, v) m.
+Proof.
+  induction m as [|[k' v'] m IH]; cbn [alookup]; [discriminate|].
+  destruct (k =? k') eqn:E; intros H.
+  - apply N.eqb_eq in E. inversion H. subst. left. reflexivity.
+  - right. apply IH. exact H.
+Qed.
+
+(* did:key issuers, one capability, acyclic by `rank`, no proof listed twice, no proof cited
+   by two tokens *)
+Definition forest_cert (C : ctx) (rank : link -> nat) (m : list (link * token)) : bool :=
+  forallb (fun e =>
+    direct_iss C (snd e) && (length (t_caps (snd e)) <=? 1)%nat &&
+    forallb (fun p => (rank p <? rank (fst e))%nat) (t_prf (snd e)) &&
+    nodupb (t_prf (snd e)) &&
+    forallb (fun e' => (fst e =? fst e') ||
+                       forallb (fun p => negb (existsb (N.eqb p) (t_prf (snd e')))) (t_prf (snd e))) m) m.
+
+Lemma forest_cert_sound C rank m : forest_cert C rank m = true ->
+  let U := fun l => alookup l m in
+  (forall l t, U l = Some t -> direct_iss C t = true) /\
+  (forall l t, U l = Some t -> (length (t_caps t) <= 1)%nat) /\
+  (forall l t p, U l = Some t -> In p (t_prf t) -> (rank p < rank l)%nat) /\
+  (forall l t, U l = Some t -> NoDup (t_prf t)) /\
+  (forall l1 t1 l2 t2 p, U l1 = Some t1 -> U l2 = Some t2 ->
+     In p (t_prf t1) -> In p (t_prf t2) -> l1 = l2).
+Proof.
+  intros H U. unfold forest_cert in H. rewrite forallb_forall in H.
+  assert (HE : forall l t, U l = Some t ->
+            direct_iss C t = true /\ (length (t_caps t) <= 1)%nat /\
+            (forall p, In p (t_prf t) -> (rank p < rank l)%nat) /\ NoDup (t_prf t) /\
+            forall l' t', U l' = Some t' -> l = l' \/ forall p, In p (t_prf t) -> ~ In p (t_prf t')).
+  { intros l t T. apply alookup_In in T. specialize (H (l, t) T). cbn [fst snd] in H.
+    repeat (apply andb_true_iff in H; destruct H as [H ?]).
+    repeat split; auto.
+    - apply Nat.leb_le. assumption.
+    - intros p Hp. rewrite forallb_forall in *. apply Nat.ltb_lt. auto.
+    - apply nodupb_NoDup. assumption.
+    - intros l' t' T'. apply alookup_In in T'.
+      match goal with X : forallb _ m = true |- _ => rewrite forallb_forall in X; specialize (X (l', t') T') end.
+      cbn [fst snd] in *. apply orb_true_iff in H0. destruct H0 as [E|D].
+      + left. apply N.eqb_eq. exact E.
+      + right. intros p Hp Hp'. rewrite forallb_forall in D. specialize (D p Hp).
+        rewrite (existsb_eqb_in p _ Hp') in D. discriminate. }
+  repeat split.
+  - intros l t T. apply (HE l t T).
+  - intros l t T. apply (HE l t T).
+  - intros l t p T. apply (HE l t T).
+  - intros l t T. apply (HE l t T).
+  - intros l1 t1 l2 t2 p T1 T2 P1 P2.
+    destruct (HE l1 t1 T1) as [_ [_ [_ [_ X]]]]. destruct (X l2 t2 T2) as [E|D]; [exact E|].
+    exfalso. exact (D p P1 P2).
+Qed.
+
+(* the linear bound, for a world given as a finite list of tokens that passes the certificate:
+   at most (number of tokens) + 1 verifications *)
+Theorem forest_world_linear (w : wcase) rank n :
+  forest_cert (wc_ctx w) rank (wc_tokens w) = true ->
+  (forall l p, alookup l (wc_resolver w) = Some p -> d_link p = l) ->
+  incl (reach (wc_U w) (wc_ctx w) (pred n) (wc_inv w)) (map fst (wc_tokens w)) ->
+  verifications_at n w <= delegations w + 1.
+Proof.
+  intros Hc Hres Hin. destruct (forest_cert_sound _ _ _ Hc) as [H1 [H2 [H3 [H4 H5]]]].
+  unfold verifications_at, run_at, delegations. rewrite <- (map_length fst (wc_tokens w)).
+  apply (cited_once_linear (wc_U w) (wc_ctx w) Hres rank H3 H4 H5); assumption.
+Qed.
+
+Definition lay_rank (l : link) : nat := if l =? 0 then 1000%nat else N.to_nat l.
+
+(* non-vacuity: a chain and a star (an invocation citing three leaves) satisfy every
+   hypothesis of the forest theorems; the bound and the actual work *)
+Example forest_chain_nonvacuous :
+  forest_cert (wc_ctx (chain true 4)) lay_rank (wc_tokens (chain true 4)) = true /\
+  incl (reach (wc_U (chain true 4)) (wc_ctx (chain true 4)) 5 (wc_inv (chain true 4)))
+       (map fst (wc_tokens (chain true 4))) /\
+  verifications_at 6 (chain true 4) = 5 /\ delegations (chain true 4) + 1 = 6.
+Proof.
+  split; [vm_compute; reflexivity|]. split; [|split; vm_compute; reflexivity].
+  intros x Hx. vm_compute in Hx. vm_compute. tauto.
+Qed.
+
+Example forest_star_nonvacuous :
+  forest_cert (wc_ctx (lay_world false 3 1)) lay_rank (wc_tokens (lay_world false 3 1)) = true /\
+  incl (reach (wc_U (lay_world false 3 1)) (wc_ctx (lay_world false 3 1)) 2 (wc_inv (lay_world false 3 1)))
+       (map fst (wc_tokens (lay_world false 3 1))) /\
+  verifications_at 3 (lay_world false 3 1) = 4 /\ delegations (lay_world false 3 1) + 1 = 5.
+Proof.
+  split; [vm_compute; reflexivity|]. split; [|split; vm_compute; reflexivity].
+  intros x Hx. vm_compute in Hx. vm_compute. tauto.
+Qed.
+
+(* a shared proof is not a forest: the certificate rejects the 2 x 2 layered world *)
+Example forest_cert_rejects_sharing :
+  forest_cert (wc_ctx (lay_world false 2 2)) lay_rank (wc_tokens (lay_world false 2 2)) = false /\
+  ~ NoDup (reach (wc_U (lay_world false 2 2)) (wc_ctx (lay_world false 2 2)) 3 (wc_inv (lay_world false 2 2))).
+Proof.
+  split; [vm_compute; reflexivity|]. vm_compute. intros H.
+  inversion H as [|? ? _ H1]; subst. inversion H1 as [|? ? N2 _]; subst. apply N2. cbn. tauto.
+Qed.
+
+(* non-vacuity of the conditional quadratic bound, and of the family refutation *)
+Example weight_within_bound_chain :
+  paths_weight (wc_U (chain false 5)) (wc_ctx (chain false 5)) 7 (wc_inv (chain false 5)) = 6 /\
+  6 <= delegations (chain false 5) * delegations (chain false 5) + 2.
+Proof. split; vm_compute; [reflexivity | discriminate]. Qed.
+
+Example lay_2_10 :
+  verifications_at 12 (lay_world false 2 10) = 2047 /\ delegations (lay_world false 2 10) = 21 /\
+  21 * 21 + 2 < 2047.
+Proof. repeat split; vm_compute; reflexivity. Qed.
+
+(* ------------------------------------------------------------------ *)
+(* the statements as used by Properties_C19.v                          *)
+
+Lemma geo_recurrence w d : geo w 0 = 1 /\ geo w (S d) = 1 + w * geo w d.
+Proof. split; reflexivity. Qed.
+
+Theorem lay_ok_linear w d n : (1 <= w)%nat -> (d + 2 <= n)%nat ->
+  (exists a, fst (run_at n (lay_world true w d)) = AOk a) /\
+  verifications_at n (lay_world true w d) = delegations (lay_world true w d).
+Proof. intros Hw Hn. rewrite lay_delegations. exact (lay_ok_cost w d n Hw Hn). Qed.
+
+Theorem lay_exceeds_quadratic_full w d n : (2 <= w)%nat -> (10 <= d)%nat -> (d + 2 <= n)%nat ->
+  delegations (lay_world false w d) = N.of_nat (w * d + 1) /\
+  delegations (lay_world false w d) * delegations (lay_world false w d) + 2
+    < verifications_at n (lay_world false w d).
+Proof. intros Hw Hd Hn. split; [apply lay_delegations | exact (lay_exceeds_quadratic w d n Hw Hd Hn)]. Qed.
+
+Theorem refuted_family (w : nat) : (2 <= w)%nat -> exists d, ~ quadratic_bound (lay_world false w d).
+Proof. intros Hw. exists 10%nat. exact (quadratic_bound_refuted_family w Hw). Qed.
